@@ -9,6 +9,7 @@ import (
 	"go/ast"
 	"go/token"
 	"go/types"
+	"regexp"
 	"sort"
 	"strings"
 	"testing"
@@ -64,6 +65,9 @@ type denot struct{ Name, Pkg string }
 func denotations(ck *gen.Checked, n ast.Node) []denot {
 	var out []denot
 	ast.Inspect(n, func(x ast.Node) bool {
+		if st, ok := x.(ast.Stmt); ok && x != n && astTag(st) != "" {
+			return false // movable statements are judged one by one
+		}
 		id, ok := x.(*ast.Ident)
 		if !ok {
 			return true
@@ -84,6 +88,52 @@ func denotations(ck *gen.Checked, n ast.Node) []denot {
 		out = append(out, denot{id.Name, gen.StripVendor(obj.Pkg().Path())})
 		return true
 	})
+	return out
+}
+
+var tagRE = regexp.MustCompile(`^"tag[0-9]+_[0-9]+"$`)
+
+// astTag returns the tag literal of a movable statement ("" if it has none of its own).
+func astTag(st ast.Stmt) string {
+	if _, isBlock := st.(*ast.BlockStmt); isBlock {
+		return ""
+	}
+	tag := ""
+	ast.Inspect(st, func(x ast.Node) bool {
+		if bl, ok := x.(*ast.BasicLit); ok && tag == "" && tagRE.MatchString(bl.Value) {
+			tag = bl.Value
+		}
+		return tag == ""
+	})
+	return tag
+}
+
+func dstTag(st dst.Stmt) string {
+	if _, isBlock := st.(*dst.BlockStmt); isBlock {
+		return ""
+	}
+	tag := ""
+	dst.Inspect(st, func(x dst.Node) bool {
+		if bl, ok := x.(*dst.BasicLit); ok && tag == "" && tagRE.MatchString(bl.Value) {
+			tag = bl.Value
+		}
+		return tag == ""
+	})
+	return tag
+}
+
+// taggedStmts lists the top-level statements of function bodies that carry a tag.
+func taggedStmts(f *ast.File) map[string][]ast.Stmt {
+	out := map[string][]ast.Stmt{}
+	for _, d := range f.Decls {
+		if fd, ok := d.(*ast.FuncDecl); ok && fd.Body != nil {
+			for _, st := range fd.Body.List {
+				if tg := astTag(st); tg != "" {
+					out[tg] = append(out[tg], st)
+				}
+			}
+		}
+	}
 	return out
 }
 
@@ -110,9 +160,10 @@ func check(t h.TB, c Case) {
 		t.Fatalf("harness: %v", err)
 	}
 	// decorate every package with the types-based resolver
-	trees := map[string]*dst.File{} // file name -> tree
-	filePkg := map[string]string{}  // file name -> package path
-	before := map[string][]denot{}  // top-level declaration name -> what its identifiers denote
+	trees := map[string]*dst.File{}    // file name -> tree
+	filePkg := map[string]string{}     // file name -> package path
+	before := map[string][]denot{}     // top-level declaration name -> what its identifiers denote
+	beforeStmt := map[string][]denot{} // tag of a movable statement -> what its identifiers denote
 	var fnames []string
 	needsLocal := map[dst.Node]bool{}
 	for path, files := range c.Pkgs {
@@ -143,6 +194,9 @@ func check(t h.TB, c Case) {
 			}
 			trees[fn], filePkg[fn] = df, path
 			fnames = append(fnames, fn)
+			for tg, sts := range taggedStmts(af) {
+				beforeStmt[tg] = denotations(ck, sts[0])
+			}
 			for _, d := range af.Decls {
 				if gd, ok := d.(*ast.GenDecl); ok && gd.Tok == token.IMPORT {
 					continue
@@ -190,6 +244,47 @@ func check(t h.TB, c Case) {
 		}
 		di := idx[m.Decl%len(idx)]
 		d := src.Decls[di]
+		if m.Stmt >= 0 {
+			// move one tagged statement of some function of the source file to the top of the
+			// first plain function of the target file
+			type at struct {
+				fd *dst.FuncDecl
+				i  int
+			}
+			var cand []at
+			for _, sd := range src.Decls {
+				if fd, ok := sd.(*dst.FuncDecl); ok && fd.Body != nil {
+					for i, st := range fd.Body.List {
+						if dstTag(st) != "" {
+							cand = append(cand, at{fd, i})
+						}
+					}
+				}
+			}
+			var host *dst.FuncDecl
+			for _, td := range dstf.Decls {
+				// (a parameter could shadow the import name the restorer chooses: outside the premise)
+				if tf, ok := td.(*dst.FuncDecl); ok && tf.Body != nil && tf.Recv == nil && tf.Type.TypeParams == nil && (tf.Type.Params == nil || len(tf.Type.Params.List) == 0) {
+					host = tf
+					break
+				}
+			}
+			if len(cand) == 0 || host == nil {
+				h.Label("move-skipped:no-movable-statement-or-no-host")
+				continue
+			}
+			pick := cand[(m.Decl*8+m.Stmt)%len(cand)]
+			st := pick.fd.Body.List[pick.i]
+			if m.Copy {
+				st = dst.Clone(st).(dst.Stmt)
+			} else {
+				pick.fd.Body.List = append(pick.fd.Body.List[:pick.i:pick.i], pick.fd.Body.List[pick.i+1:]...)
+			}
+			host.Body.List = append([]dst.Stmt{st}, host.Body.List...)
+			touched[m.From], touched[m.To] = true, true
+			h.Label("move:statement")
+			continue
+		}
 		if needsLocal[d] && filePkg[m.From] != filePkg[m.To] {
 			h.Label("move-skipped:needs-objects-of-its-own-package")
 			continue
@@ -276,6 +371,15 @@ func check(t h.TB, c Case) {
 			}
 		}
 		for fn, af := range ck.Files {
+			for tg, sts := range taggedStmts(af) {
+				for _, st := range sts {
+					if got, want := denotations(ck, st), beforeStmt[tg]; fmt.Sprint(got) != fmt.Sprint(want) {
+						h.Fail(t, sub, c, "statement %s (now in %s of %s): its identifiers denoted %v, now %v\n%s", tg, fn, path, want, got, files[fn])
+					}
+				}
+			}
+		}
+		for fn, af := range ck.Files {
 			for _, d := range af.Decls {
 				if gd, ok := d.(*ast.GenDecl); ok && gd.Tok == token.IMPORT {
 					continue
@@ -318,6 +422,9 @@ func genCase(t *rapid.T) (Case, bool) {
 	cross, differ := false, false
 	for i := 0; i < nm; i++ {
 		m := Move{From: fn[rapid.IntRange(0, len(fn)-1).Draw(t, "from")], To: fn[rapid.IntRange(0, len(fn)-1).Draw(t, "to")], Decl: rapid.IntRange(0, 50).Draw(t, "decl"), Stmt: -1, Copy: rapid.IntRange(0, 3).Draw(t, "copy") == 0}
+		if rapid.IntRange(0, 2).Draw(t, "stmtmove") == 0 {
+			m.Stmt = rapid.IntRange(0, 7).Draw(t, "stmt")
+		}
 		if m.From == m.To {
 			continue
 		}
